@@ -153,17 +153,53 @@ Definition ntp_unix_32 (n : Z) : Z :=
   let fr := n mod 4294967296 in
   (sec * 1000000000 - 2208988800 * 1000000000) * 4294967296 + fr * 1000000000.
 
+(* the five purely integer groups of the recount, as booleans ... *)
+Definition g_inbound (s : Z) (evs : list event) (o : obs) : bool :=
+  (b_recv o =? spec_in_recv s evs) && (b_hdr o =? spec_in_hdr s evs) &&
+  (b_bytes o =? spec_in_bytes s evs) && oz_eqb (b_last o) (spec_in_last s evs).
+Definition g_lost (s : Z) (evs : list event) (o : obs) : bool := b_lost o =? spec_in_lost s evs.
+Definition g_outbound (s : Z) (evs : list event) (o : obs) : bool :=
+  (b_sent o =? spec_out_sent s evs) && (b_obytes o =? spec_out_bytes s evs) && (b_ohdr o =? spec_out_hdr s evs).
+Definition g_fb_in (s : Z) (evs : list event) (o : obs) : bool :=
+  (b_fir o =? spec_fb_sent s is_fir evs) && (b_pli o =? spec_fb_sent s is_pli evs) &&
+  (b_nack o =? spec_fb_sent s is_nack evs).
+Definition g_fb_out (s : Z) (evs : list event) (o : obs) : bool :=
+  (b_ofir o =? spec_fb_recv s is_fir evs) && (b_opli o =? spec_fb_recv s is_pli evs) &&
+  (b_onack o =? spec_fb_recv s is_nack evs).
+Definition counts_ok s evs o : bool :=
+  g_inbound s evs o && g_lost s evs o && g_outbound s evs o && g_fb_in s evs o && g_fb_out s evs o.
+
+(* ... and as the Prop-level statement of the property text for these groups *)
+Definition counts_spec (s : Z) (evs : list event) (o : obs) : Prop :=
+  (b_recv o = spec_in_recv s evs /\ b_hdr o = spec_in_hdr s evs /\
+   b_bytes o = spec_in_bytes s evs /\ b_last o = spec_in_last s evs) /\
+  b_lost o = spec_in_lost s evs /\
+  (b_sent o = spec_out_sent s evs /\ b_obytes o = spec_out_bytes s evs /\ b_ohdr o = spec_out_hdr s evs) /\
+  (b_fir o = spec_fb_sent s is_fir evs /\ b_pli o = spec_fb_sent s is_pli evs /\
+   b_nack o = spec_fb_sent s is_nack evs) /\
+  (b_ofir o = spec_fb_recv s is_fir evs /\ b_opli o = spec_fb_recv s is_pli evs /\
+   b_onack o = spec_fb_recv s is_nack evs).
+
+Lemma oz_eqb_eq a b : oz_eqb a b = true <-> a = b.
+Proof.
+  destruct a, b; simpl; split; intros H; try discriminate; auto.
+  - apply Z.eqb_eq in H. congruence.
+  - inversion H. apply Z.eqb_refl.
+Qed.
+
+Lemma counts_ok_iff s evs o : counts_ok s evs o = true <-> counts_spec s evs o.
+Proof.
+  unfold counts_ok, counts_spec, g_inbound, g_lost, g_outbound, g_fb_in, g_fb_out.
+  rewrite !andb_true_iff, !Z.eqb_eq, oz_eqb_eq. tauto.
+Qed.
+
 (* failure code of one query point; 0 = every group agrees with the recount *)
 Definition spec_code (s rate : Z) (evs : list event) (o : obs) : nat :=
-  if negb ((b_recv o =? spec_in_recv s evs) && (b_hdr o =? spec_in_hdr s evs) &&
-           (b_bytes o =? spec_in_bytes s evs) && oz_eqb (b_last o) (spec_in_last s evs)) then 1%nat
-  else if negb (b_lost o =? spec_in_lost s evs) then 2%nat
-  else if negb ((b_sent o =? spec_out_sent s evs) && (b_obytes o =? spec_out_bytes s evs) &&
-                (b_ohdr o =? spec_out_hdr s evs)) then 3%nat
-  else if negb ((b_fir o =? spec_fb_sent s is_fir evs) && (b_pli o =? spec_fb_sent s is_pli evs) &&
-                (b_nack o =? spec_fb_sent s is_nack evs)) then 4%nat
-  else if negb ((b_ofir o =? spec_fb_recv s is_fir evs) && (b_opli o =? spec_fb_recv s is_pli evs) &&
-                (b_onack o =? spec_fb_recv s is_nack evs)) then 5%nat
+  if negb (g_inbound s evs o) then 1%nat
+  else if negb (g_lost s evs o) then 2%nat
+  else if negb (g_outbound s evs o) then 3%nat
+  else if negb (g_fb_in s evs o) then 4%nat
+  else if negb (g_fb_out s evs o) then 5%nat
   else if negb (match spec_last_report s evs with
                 | Some (Rep _ fr lost _ jit _ _) =>
                     (b_rlost o =? lost) && fl_near_ratio (b_rjit o) jit rate && fl_is_ratio (b_rfrac o) fr 256
@@ -182,6 +218,16 @@ Definition spec_code (s rate : Z) (evs : list event) (o : obs) : nat :=
                 | _ => (b_rosent o =? 0) && (b_robytes o =? 0) && oz_eqb (b_rots o) None
                 end) then 9%nat
   else 0%nat.
+
+Lemma spec_code_zero_counts s rate evs o : spec_code s rate evs o = 0%nat -> counts_ok s evs o = true.
+Proof.
+  unfold spec_code, counts_ok.
+  destruct (g_inbound s evs o); [|discriminate].
+  destruct (g_lost s evs o); [|discriminate].
+  destruct (g_outbound s evs o); [|discriminate].
+  destruct (g_fb_in s evs o); [|discriminate].
+  destruct (g_fb_out s evs o); [|discriminate]. reflexivity.
+Qed.
 
 (* first failing query point of a case: code of the first non-zero step; also
    the number of observations must equal the number of events (code 99) *)
